@@ -37,6 +37,9 @@ func vLogInfo(client trillian.TrillianLogClient, signer crypto.Signer, ts util.T
 }
 
 // vServe drives one request through the real AppHandler for the named endpoint.
+// vRawQuerySuffix, when set, is appended verbatim to the query string vServe builds (malformed escapes and the like).
+var vRawQuerySuffix string
+
 // vContentType, when set, is the Content-Type header of the requests vServe builds (the handlers never look at it: what they
 // answer must not depend on it).
 var vContentType string
@@ -46,6 +49,12 @@ func vServe(li *logInfo, ep string, method string, q url.Values, body string) *h
 	u := "http://example.com/test/ct/v1/" + ep
 	if q != nil {
 		u += "?" + q.Encode()
+	}
+	if vRawQuerySuffix != "" {
+		if q == nil {
+			u += "?"
+		}
+		u += vRawQuerySuffix
 	}
 	var req *http.Request
 	if body != "" {
